@@ -200,8 +200,15 @@ func (t *SymbolTable) ensureDistinctDefs() error {
 		}
 	}
 
-	for val, defs := range reverse {
-		if len(defs) > 1 {
+	// The values are visited in sorted order, so the diagnostics come out in the same order on every run.
+	vals := make([]string, 0, len(reverse))
+	for val := range reverse {
+		vals = append(vals, val)
+	}
+	sort.Quick(vals, strings.Compare)
+
+	for _, val := range vals {
+		if defs := reverse[val]; len(defs) > 1 {
 			poses := generic.Transform(defs, func(def *TerminalDef) string {
 				return fmt.Sprintf("  %s: %s", def.Pos, def.Terminal)
 			})
